@@ -13,7 +13,7 @@
 (*         model is wrong, never a statement about pint), and the markers  *)
 (*         / problems equal what the transcribed algorithm computes        *)
 (*         (DRIFT otherwise).                                              *)
-(* Events: Reset, Commit, BaseAdv, Finish, Failed.                         *)
+(* Events: Reset, Commit, BaseAdv, Merge, Finish, Failed.                  *)
 (***************************************************************************)
 EXTENDS GitHistory
 
@@ -29,10 +29,10 @@ TraceInit == Init /\ l = 1 /\ cid = 0 /\ done = FALSE
 TReset ==
   /\ l <= Len(TraceLog) /\ Rec.ev = "Reset"
   /\ LET f == [p \in Paths |-> Rec.fork[p]] IN
-     /\ fork' = f /\ tree' = f /\ prevTree' = f
+     /\ fork' = f /\ tree' = f /\ prevTree' = f /\ base' = f
      /\ origin' = [p \in Paths |-> IF f[p].present THEN p ELSE NoPath]
   /\ phase' = "branch" /\ changes' = <<>> /\ tomb' = [p \in Paths |-> NoPath] /\ ambig' = FALSE
-  /\ lastNS' = [status |-> "", src |-> NoPath, dst |-> NoPath]
+  /\ lastNS' = NoNS /\ mainNew' = NoNew /\ nmerge' = 0
   /\ ncommit' = 0 /\ nbase' = 0 /\ log' = <<>>
   /\ cid' = Rec.id /\ l' = l + 1 /\ UNCHANGED done
 
@@ -40,13 +40,25 @@ TReset ==
 TCommit ==
   /\ l <= Len(TraceLog) /\ Rec.ev = "Commit"
   /\ Commit(Rec.op)
-  /\ IF Len(Rec.obs) = 1 /\ Rec.obs[1] = Rec.op.ns THEN TRUE
-     ELSE PrintT(<<"GITDRIFT", cid, ToJson([expected |-> Rec.op.ns, observed |-> Rec.obs])>>)
+  /\ LET exp == [i \in 1..Len(Parts(Rec.op)) |-> Parts(Rec.op)[i].ns] IN
+     IF Rec.obs = exp THEN TRUE
+     ELSE PrintT(<<"GITDRIFT", cid, ToJson([expected |-> exp, observed |-> Rec.obs])>>)
   /\ l' = l + 1 /\ UNCHANGED <<cid, done>>
 
+\* a commit on main: the content the harness wrote on main is the model's file
 TBaseAdv ==
   /\ l <= Len(TraceLog) /\ Rec.ev = "BaseAdv"
-  /\ BaseAdvance(Rec.path)
+  /\ BaseAdvance(Rec.op.ns.src, IF Rec.op.op = "BaseAdvancetop" THEN "top" ELSE "end")
+  /\ IF MainFile(base, mainNew', Rec.op.ns.src) = Rec.op.file THEN TRUE
+     ELSE PrintT(<<"GITDRIFT", cid, ToJson([what |-> "base advance content", op |-> Rec.op])>>)
+  /\ l' = l + 1 /\ UNCHANGED <<cid, done>>
+
+\* git merge main: the tree the harness committed as the merge result is the model's merged tree
+TMerge ==
+  /\ l <= Len(TraceLog) /\ Rec.ev = "Merge"
+  /\ MergeBase
+  /\ IF \A p \in Paths : IF p \in DOMAIN Rec.op.tree THEN tree'[p] = Rec.op.tree[p] ELSE ~tree'[p].present THEN TRUE
+     ELSE PrintT(<<"GITDRIFT", cid, ToJson([what |-> "merged tree", op |-> Rec.op])>>)
   /\ l' = l + 1 /\ UNCHANGED <<cid, done>>
 
 OpNames == [i \in 1..Len(log) |-> log[i].op]
@@ -72,26 +84,26 @@ JudgeC03(obs) ==
                                  obs |-> {m.state}, path |-> m.path, k |-> 0],
                         greedy |-> {x.state : x \in {y \in g : y.path = m.path /\ y.first = m.first /\ y.last = m.last}},
                         idfirst |-> {x.state : x \in {y \in t : y.path = m.path /\ y.first = m.first /\ y.last = m.last}},
-                        ops |-> OpNames, phantom |-> m])>>)
+                        ops |-> OpNames, phantom |-> m, stale |-> StaleAt(m.path), merged |-> nmerge > 0])>>)
   /\ PrintT(<<"MODE", cid, IF obs = g THEN 1 ELSE 0, IF obs = t THEN 1 ELSE 0>>)
   /\ IF obs = g \/ obs = t THEN TRUE
      ELSE PrintT(<<"DRIFT", cid, "C03", ToJson([greedy |-> g, twopass |-> t, observed |-> obs, ops |-> OpNames])>>)
 
 \* C20 verdict and binding on the recorded rule/dependency problems
 ForkRuleAt(w) ==
-  LET S == {qj \in UNION {{<<q, j>> : j \in 1..Len(fork[q].rules)} : q \in Paths} :
-              qj[1] = w.path /\ FirstLine(fork[qj[1]], qj[2]) = w.first} IN
-  IF S = {} THEN "none" ELSE LET qj == CHOOSE x \in S : TRUE IN fork[qj[1]].rules[qj[2]].kind
+  LET S == {qj \in UNION {{<<q, j>> : j \in 1..Len(base[q].rules)} : q \in Paths} :
+              qj[1] = w.path /\ FirstLine(base[qj[1]], qj[2]) = w.first} IN
+  IF S = {} THEN "none" ELSE LET qj == CHOOSE x \in S : TRUE IN base[qj[1]].rules[qj[2]].kind
 JudgeC20(obsSeq) ==
   LET obs  == {obsSeq[i] : i \in 1..Len(obsSeq)}
       sets == DepsAsSets(obs)
-      doc  == DocWarnings
+      doc  == IF nmerge > 0 /\ sets = DocWarningsForkLines THEN DocWarningsForkLines ELSE DocWarnings
       g    == ImplDeps(tree, changes, "greedy")
       t    == ImplDeps(tree, changes, "twopass")
       locs == {[path |-> w.path, first |-> w.first, last |-> w.last] : w \in (sets \ doc) \cup (doc \ sets)}
       at(ws, loc) == {w \in ws : w.path = loc.path /\ w.first = loc.first /\ w.last = loc.last}
   IN
-  /\ \A loc \in IF ambig THEN {} ELSE locs :
+  /\ \A loc \in IF ambig \/ Unparsed THEN {} ELSE locs :
         LET d == at(doc, loc)
             o == at(sets, loc) IN
         PrintT(<<"VIOL", cid, "C20",
@@ -99,6 +111,7 @@ JudgeC20(obsSeq) ==
                          kind |-> ForkRuleAt(loc), loc |-> loc,
                          ndoc |-> IF d = {} THEN 0 ELSE Cardinality((CHOOSE w \in d : TRUE).deps),
                          nobs |-> IF o = {} THEN 0 ELSE Cardinality((CHOOSE w \in o : TRUE).deps),
+                         stale |-> Stale, merged |-> nmerge > 0, implsame |-> (obs = g \/ obs = t),
                          doc |-> d, observed |-> o, ops |-> OpNames])>>)
   /\ IF (obs = g \/ obs = t) /\ Cardinality(obs) = Len(obsSeq) THEN TRUE
      ELSE PrintT(<<"DRIFT", cid, "C20", ToJson([greedy |-> g, twopass |-> t, observed |-> obsSeq, ops |-> OpNames])>>)
@@ -114,8 +127,13 @@ TFinish ==
   /\ IF LayoutOK(Rec.layout) THEN TRUE ELSE PrintT(<<"LAYOUTDRIFT", cid, ToJson(Rec.layout)>>)
   /\ JudgeC03({Rec.markers[i] : i \in 1..Len(Rec.markers)})
   /\ JudgeC20(Rec.deps)
-  /\ PrintT(<<"NDEPS", cid, Len(Rec.deps), Cardinality(DocWarnings), IF ambig THEN 1 ELSE 0>>)
+  /\ PrintT(<<"NDEPS", cid, Len(Rec.deps), Cardinality(DocWarnings), IF ambig THEN 1 ELSE 0,
+            IF Unparsed THEN 1 ELSE 0, IF Stale THEN 1 ELSE 0>>)
   /\ IF Len(Rec.other) = 0 THEN TRUE ELSE PrintT(<<"OTHER", cid, ToJson(Rec.other)>>)
+  \* binding of the yaml/parse problems (files that do not parse at HEAD)
+  /\ LET po == {Rec.parse[i] : i \in 1..Len(Rec.parse)} IN
+     IF po = ImplParse(tree, changes, "greedy") \/ po = ImplParse(tree, changes, "twopass") THEN TRUE
+     ELSE PrintT(<<"DRIFT", cid, "PARSE", ToJson([expected |-> ImplParse(tree, changes, "twopass"), observed |-> po, ops |-> OpNames])>>)
   /\ l' = l + 1 /\ UNCHANGED <<vars, cid, done>>
 
 \* pint produced no report at all (reproducibly)
@@ -129,6 +147,6 @@ TDone ==
   /\ done' = TRUE /\ PrintT(<<"DONE", l - 1>>)
   /\ UNCHANGED <<vars, l, cid>>
 
-TraceNext == TReset \/ TCommit \/ TBaseAdv \/ TFinish \/ TFailed \/ TDone
+TraceNext == TReset \/ TCommit \/ TBaseAdv \/ TMerge \/ TFinish \/ TFailed \/ TDone
 TraceSpec == TraceInit /\ [][TraceNext]_tvars
 =============================================================================
